@@ -23,7 +23,7 @@ Inductive err :=
 | ENotPartition | ENotSystem | EUnexpectedType | EAlignOverflow | EReader
 | ETruncRange | ELaunchLen | ECapNotSupported
 | EInvalidMagic | EBadVersion | EBadCount | EShortHeader | EShortTable
-| ENegOffset | EIo | ECustom | EBadSize | EShortData.
+| ENegOffset | EIo | ECustom | EBadSize | EShortData | EIDOverflow.
 
 Inductive result := Ok | Err (e : err).
 
@@ -39,7 +39,8 @@ Definition err_eqb (a b : err) : bool :=
   | ECapNotSupported, ECapNotSupported | EInvalidMagic, EInvalidMagic
   | EBadVersion, EBadVersion | EBadCount, EBadCount | EShortHeader, EShortHeader
   | EShortTable, EShortTable | ENegOffset, ENegOffset | EIo, EIo
-  | ECustom, ECustom | EBadSize, EBadSize | EShortData, EShortData => true
+  | ECustom, ECustom | EBadSize, EBadSize | EShortData, EShortData
+  | EIDOverflow, EIDOverflow => true
   | _, _ => false
   end.
 
@@ -308,6 +309,7 @@ Definition plan_write_object (i : nat) (di : dinput) (t : Z) (m : mem)
   match nth_error rds i with
   | None => (m, Err ECapacity, [])
   | Some slot =>
+      if max_u32 <=? Z.of_nat i then (m, Err EIDOverflow, []) else
       let prim := match di_md di with
                   | MdPart _ pt _ => pt =? PartPrimSys
                   | _ => false
